@@ -91,4 +91,34 @@ theorem done_absorbing {s t : St} (hs : Step s t) (hd : s.rphase = .done) :
     t.rphase = .done ∧ t.clientOut = s.clientOut := by
   cases hs <;> simp_all
 
+
+/-! ### pairing in the deterministic reading -/
+
+theorem filterResp_status (p : Resp) (q : Req) : (filterResp p q).1.status = p.status := by
+  simp only [filterResp, ingestResp]
+  split <;> rfl
+
+/-- the requests the final responses of a delivery list were paired with, in order -/
+def finalsOf (l : List (Resp × Req)) : List Req := (l.filter (fun e => isFinal e.1.status)).map (·.2)
+
+theorem respond_fifo (qs : List Req) (ps : List Resp) : finalsOf (respond qs ps) <+: qs := by
+  induction ps generalizing qs with
+  | nil => cases qs <;> simp [respond, finalsOf]
+  | cons p ps ih =>
+    cases qs with
+    | nil => simp [respond, finalsOf]
+    | cons q qs =>
+      simp only [respond]
+      by_cases hc : (filterResp p q).2 = true
+      · simp only [hc, if_true, finalsOf, List.filter_cons, filterResp_status]
+        split
+        · simp
+        · simp
+      · simp only [hc, Bool.false_eq_true, if_false]
+        by_cases hf : isFinal p.status = true
+        · simp only [hf, if_true, finalsOf, List.filter_cons, filterResp_status, List.map_cons]
+          exact (List.prefix_cons_inj q).mpr (ih qs)
+        · simp only [hf, Bool.false_eq_true, if_false, finalsOf, List.filter_cons, filterResp_status]
+          exact ih (q :: qs)
+
 end SSV.HttpProxy
